@@ -53,7 +53,8 @@ pub(super) fn write_ht(
     }
 
     while sent > 0 {
-        io_handle.recv().unwrap();
+        // UNWRAP: we receive only what we sent. No `RecvErr` expected.
+        io_handle.recv().unwrap().result?;
         sent -= 1;
     }
 
